@@ -437,7 +437,7 @@ class SmallEval:
             if isinstance(recv, str) and not recv.startswith(("Token::", "Core::", "Side::", "CoreFunOp::")) or (isinstance(recv, tuple) and recv and recv[0] == "text"):
                 text = recv[1] if isinstance(recv, tuple) else recv
                 if m in ("to_string", "as_str", "to_owned", "clone", "as_ref") and not args and m not in self.methods:
-                    return ("text", text)
+                    return recv         # the same text in the same representation: `x.to_string()` and `String::from(x)` must compare equal
                 if m == "rsplit_once" and len(args) == 1:
                     sep = self.ev(args[0], env)
                     sep = sep[1] if isinstance(sep, tuple) else sep
